@@ -19,6 +19,10 @@
                                   (the model batch query, internal_k = K, run on the real tree)
      BUILD                        -> "BT <nnodes>" then nnodes lines "bt <p> <maxd> <pard> <scale> <nchildren>": the tree
                                   the model of batch_create builds for the samples 0..N-1
+     WRAP <m> <k> <n>             m in B V C; followed by n lines "<q> : j j j": the raw table the tree search returned
+                                  (rows in sample order; n = 0 for B) -> "W <ok> <fired> <nrows> <all_knn_b of the table>"
+                                  then nrows lines "WR <q> : <row> | <dists_sorted>": the extracted find_neighbors_core
+                                  (reference nth_element oracle) on the table d as it is - NO metric assumption
      END                          -> "END"
    Anything malformed -> "? ..." *)
 open C02_model
@@ -197,6 +201,17 @@ let () =
                   List.iter pr ch in
               pr t;
               Printf.printf "BT %d\n%s" !cnt (Buffer.contents buf))
+         | ["WRAP"; m; k; n] ->
+           let k = nat_of_int (ios k) in
+           let nn = nat_of_int !n_cur in
+           let meth = (match m with "B" -> MBrute | "V" -> MVpTree | "C" -> MCoverTree | _ -> raise (Bad "method")) in
+           let raw = List.map (fun l -> snd (parse_row l)) (read_lines (ios n)) in
+           (match find_neighbors_core meth raw (sels_ref dfun nn) nn k with
+            | None -> print_string "W 0 0 0 0\n"
+            | Some (fired, rows) ->
+              Printf.printf "W 1 %s %d %s\n" (b01 fired) (List.length rows) (b01 (all_knn_b dfun nn k (samples nn) rows));
+              List.iteri (fun q row ->
+                  Printf.printf "WR %d : %s | %s\n" q (zl row) (zl (dists_sorted dfun (z_of_int q) row))) rows)
          | ["END"] -> print_string "END\n"
          | _ -> print_string "? unknown\n"
        with Bad m -> Printf.printf "? bad-input %s\n" m);
